@@ -112,7 +112,9 @@ impl Desc {
 }
 
 /// adversarial internal names: start with / equal to primitive letters, contain 'L', non-ASCII, '$'
-pub const ADVERSARIAL: &[&str] = &["I", "Lib", "x/Long", "L", "IL", "é/ü", "a$b", "ZBCSIJFD", "V", "java/lang/String", "a/b/C$1", "LL", "x/VI", "漢/字"];
+pub const ADVERSARIAL: &[&str] = &["I", "Lib", "x/Long", "L", "IL", "é/ü", "a$b", "ZBCSIJFD", "V", "java/lang/String", "a/b/C$1", "LL", "x/VI", "漢/字",
+    // characters the formatted signature itself uses as separators
+    "a, b", "x,y", "spec/given a, then b", "sp ace", "a: b"];
 
 pub fn obj_path(mapped: &[String]) -> BoxedStrategy<String> {
     // mapped: dotted obfuscated class names of the mapping, rendered with '/'
